@@ -66,6 +66,13 @@ static int fault_answer (MemDev *md, int fault, sf_count_t requested, sf_count_t
 static int fault_hook (MemDev *md, int kind, sf_count_t requested, sf_count_t *answer, void *user)
 {	long idx = md->ncb + 1 ;	/* 1-based index of the callback being answered */
 	(void) user ;
+	if (plan.persistent == 2)	/* the device dies at call plan.at [0]: from then on nothing is transferred, seek and tell fail, the length stays */
+	{	if (idx < plan.at [0] || kind == MD_LEN) return 0 ;
+		if (plan.first_fault_ncb == 0) { plan.first_fault_ncb = idx ; plan.len_at_fault = md->len ; }
+		faults_delivered ++ ;
+		*answer = (kind == MD_READ || kind == MD_WRITE) ? 0 : -1 ; (void) requested ;
+		return 1 ;
+		}
 	for (int k = 0 ; k < plan.nfaults ; k++)
 	{	int hit = plan.persistent ? (idx >= plan.at [k] && kind == plan.kind0) : idx == plan.at [k] ;
 		if (hit && applies (plan.fault [k], kind))
@@ -208,6 +215,15 @@ static int sys_hook (int kind, int fd, sf_count_t requested, sf_count_t *answer,
 	(void) fd ; (void) user ;
 	if (splan.kinds && idx <= splan.maxk) splan.kinds [idx - 1] = (unsigned char) kind ;
 	if (splan.budget > 0 && idx > splan.budget) vl_budget_exceeded ("sys") ;
+	if (splan.persistent == 2)	/* the descriptor dies at call splan.at [0]: every transfer, seek and stat fails with EIO from then on */
+	{	if (idx < splan.at [0]) return 0 ;
+		if (kind == SIO_OPEN || kind == SIO_FOPEN) return 0 ;
+		if (plan.first_fault_ncb == 0)
+		{	struct stat st ; plan.first_fault_ncb = idx ; plan.len_at_fault = stat (scratch_path, &st) == 0 ? st.st_size : 0 ; }
+		faults_delivered ++ ;
+		*answer = -1 ; *err = EIO ; (void) requested ;
+		return 1 ;
+		}
 	for (int k = 0 ; k < splan.nfaults ; k++)
 	{	int hit = splan.persistent ? (idx >= splan.at [k] && kind == splan.kind0) : idx == splan.at [k] ;
 		if (! hit || ! sapplies (splan.fault [k], kind, splan.persistent)) continue ;
@@ -548,6 +564,13 @@ static void fault_sweep (int w)
 					vl_end (1, fin) ;
 					}
 				}
+	/* the device / descriptor dies at call i: everything fails from then on */
+	for (long i = 1 ; i <= K ; i++)
+		if (vl_case ("%s H fmt=%s ch=%d route=%s workload=%s fault=everything-fails from=%ld", vl_opts.prop, F->name, CH, route_names [ROUTE], w_names [w], i))
+		{	clear_plan () ; set_fault (0, i, 0) ; plan.persistent = splan.persistent = 2 ;
+			one_execution (w) ;
+			vl_end (1, vl_hash_u64 (route_calls (), thash)) ;
+			}
 	/* pairs of single-shot faults: quick among the first 24 calls with the reduced alphabet, thorough among all (cap 400) with the full one */
 	maxpair = vl_opts.thorough ? (K < 400 ? (int) K : 400) : (K < 24 ? (int) K : 24) ;
 	for (long i = 1 ; i <= maxpair ; i++)
